@@ -862,21 +862,33 @@ func checkPageTagging(c *Ctx, rule string) {
 		}
 		// the connection and the packet manager share one allocator
 		for _, name := range []string{"WithAllocator$1", "WithRSAllocator$1"} {
-			fn := p.Func(name)
+			// the body of the option: the function value the option constructor returns (a literal, a named function,
+			// a method value) — and, when that only forwards, the helper it calls
+			fn := p.optionBody(strings.TrimSuffix(name, "$1"))
 			if fn == nil {
 				c.missing(rule, name)
 				continue
 			}
 			var vals []ssa.Value
-			eachInstr(fn, func(in ssa.Instruction) {
-				if s, ok := in.(*ssa.Store); ok {
-					if fa, ok := s.Addr.(*ssa.FieldAddr); ok {
-						if _, n, _, _ := fieldOf(fa); n == "alloc" {
-							vals = append(vals, s.Val)
+			collect := func(f *ssa.Function) {
+				eachInstr(f, func(in ssa.Instruction) {
+					if s, ok := in.(*ssa.Store); ok {
+						if fa, ok := s.Addr.(*ssa.FieldAddr); ok {
+							if _, n, _, _ := fieldOf(fa); n == "alloc" {
+								vals = append(vals, s.Val)
+							}
 						}
 					}
+				})
+			}
+			collect(fn)
+			if len(vals) == 0 {
+				for _, callee := range staticCallees(fn) {
+					if callee.Blocks != nil && inModule(callee) && callee.Pkg == p.Sftp {
+						collect(callee)
+					}
 				}
-			})
+			}
 			c.check(len(vals) == 2 && vals[0] == vals[1], rule, name+" one allocator", p.Pos(fn.Pos()), "conn and packet manager get the same allocator", "the connection and the packet manager do not share one allocator: pages taken at receive are never released")
 		}
 	}
@@ -1427,4 +1439,41 @@ func checkMemFSListsByResolvedName(c *Ctx, rule string) {
 		})
 	}
 	c.check(n >= 1, rule, "the in-memory listing compares path.Dir(key)", "?", fmt.Sprintf("%d comparisons", n), "no method of the in-memory root selects the children of a directory by path.Dir(key) any more")
+}
+
+// optionBody: the function that an option constructor (WithAllocator, WithStartDirectory, ...) returns — a literal, a
+// named function or a method value.
+func (p *Program) optionBody(name string) *ssa.Function {
+	ctor := p.Func(name)
+	if ctor == nil {
+		return p.Func(name + "$1")
+	}
+	for _, rl := range returnLeaves(ctor, 0) {
+		switch x := rl.v.(type) {
+		case *ssa.MakeClosure:
+			if f, ok := x.Fn.(*ssa.Function); ok {
+				// a bound method value: the wrapper calls the method
+				if f.Synthetic != "" {
+					for _, callee := range staticCallees(f) {
+						if callee.Blocks != nil && inModule(callee) {
+							return callee
+						}
+					}
+				}
+				return f
+			}
+		case *ssa.Function:
+			return x
+		case *ssa.ChangeType:
+			if f, ok := x.X.(*ssa.Function); ok {
+				return f
+			}
+			if mc, ok := x.X.(*ssa.MakeClosure); ok {
+				if f, ok := mc.Fn.(*ssa.Function); ok {
+					return f
+				}
+			}
+		}
+	}
+	return p.Func(name + "$1")
 }
